@@ -43,6 +43,16 @@ Proof. exact gen_roundtrip. Qed.
 Theorem C04_top_lists : xml_tops_ok = true.
 Proof. exact gen_tops_ok. Qed.
 
+(* Whole documents: writing any list of well-formed identifiables (object_store_to_xml_element) and reading the
+   document back in strict mode (read_aas_xml_file_into) succeeds whenever the ids are unique, and returns
+   exactly the objects written, grouped by top-level list in the writer's order (read_back). *)
+Theorem C04_xml_store : forall fl n objs seen,
+  (forall v, In v objs -> wfb xml_meta n v = true) ->
+  add_all [] (read_back xml_tops objs) = Ok seen ->
+  exists x, write_store fl gen_xml_w xml_tops n objs = Ok x /\
+            read_store gen_xml_r xml_meta xml_tops n x = Ok (read_back xml_tops objs).
+Proof. exact gen_store_roundtrip. Qed.
+
 (* The predicate is discriminating: the rows repaired on the pinned tree are rejected. *)
 Example C04_truthy_on_typed_value_rejected :
   cond_ok xml_meta (KXsd "value_type") WTruthy VNone = false /\
@@ -80,3 +90,9 @@ Example C04_example :
   | Ok x => dec_obj gen_xml_r xml_meta 8 "construct_submodel" x = Ok ex_submodel
   | _ => False end.
 Proof. vm_compute. repeat split; reflexivity. Qed.
+
+Example C04_store_example :
+  match write_store ex_falsy gen_xml_w xml_tops 8 [ex_submodel] with
+  | Ok x => read_store gen_xml_r xml_meta xml_tops 8 x = Ok [ex_submodel]
+  | _ => False end.
+Proof. vm_compute. reflexivity. Qed.
